@@ -204,6 +204,58 @@ class Unit:
         self.sections.append(s)
         return s
 
+    def lift_closure(self, file, path, prefix, name, sig, spec="", subs=None, rules_=DEFAULT_FN_RULES, wrap=None, props=None,
+                     attrs="", post_subs=None):
+        """R-closure: the closure literal starting with `prefix` inside fn `path` is lifted to a function `name` with signature
+        `sig` (its parameters followed by its captured variables); the closure BODY text is copied unchanged."""
+        if isinstance(path, str):
+            path = [p.strip() for p in path.split(" :: ") if p.strip()]
+        src = load(self.repo, file)
+        it = src.find(path)
+        fired = [("R-closure", 1, prefix)]
+        fbody, _ = rules.strip_comments(it.body_text())
+        toks = tokenize(fbody)
+        hits = find_seq(toks, texts(tokenize(prefix)))
+        if len(hits) != 1:
+            raise LostAnchor("closure prefix %r matches %d times in %s" % (prefix, len(hits), path))
+        plo, phi, blo, bhi, braced = closure_span(toks, hits[0])
+        body = fbody[toks[blo].start:toks[bhi - 1].end]
+        if not braced:
+            body = "{ " + body + " }"
+        body, n = rules.strip_attrs(body)
+        for r in rules_:
+            body, n = RULE_FUNCS[r](body)
+            if n:
+                fired.append((r, n))
+        body = self._apply_subs(body, subs, fired)
+        body = self._apply_subs(body, post_subs, fired)
+        spec_txt = spec.strip("\n")
+        pieces = []
+        if wrap:
+            pieces.append(wrap + " {\n")
+        if attrs.strip():
+            pieces.append(attrs.strip() + "\n")
+        pieces.append("pub fn " + name + sig.rstrip() + "\n")
+        if spec_txt:
+            pieces.append(spec_txt + "\n")
+        head_len = sum(len(p) for p in pieces)
+        pieces.append(body.rstrip() + "\n")
+        if wrap:
+            pieces.append("}\n")
+        text = "".join(pieces)
+        h = hashlib.sha256()
+        for tk in toks[hits[0]:bhi]:
+            h.update(tk.text.encode())
+            h.update(b"\0")
+        a, b = it.line_span()
+        meta = dict(file=file, path=" :: ".join(path) + " :: closure " + prefix, lines=[a, b], src_sha256=h.hexdigest(),
+                    gen_sha256=hashlib.sha256(text.encode()).hexdigest(), rules=fired, kind="fn", fn_name=name, contract=spec_txt,
+                    src_text=fbody[toks[hits[0]].start:toks[bhi - 1].end])
+        s = Section(((wrap + " :: ") if wrap else "") + "fn " + name, text, "fn", props or self.props, meta)
+        s.canary_offsets = [text.index("{", head_len) + 1]
+        self.sections.append(s)
+        return s
+
     # ------------------------------------------------------------------------------------------
     def _weave_loops(self, body, loops, fired):
         """W-inv: attach invariants to the k-th loop (ordinal among for/while/loop keywords in the body)."""
